@@ -2,6 +2,8 @@ import FatVerif.Model.HistMain
 /-! Property oracles evaluated on the implementation's own behaviour (history mode). -/
 namespace FatVerif.Oracles
 
-def oracle : HistMain.Oracle := fun _prop _hdr _io _before _after => []
+def oracle : HistMain.OracleDef Unit where
+  init := fun _ => ()
+  step := fun s _ => (s, [])
 
 end FatVerif.Oracles
